@@ -246,6 +246,7 @@ theorem loopinv_apply (g : G) (a : Action) (h : LoopInv g) (hp : PInv g) :
     | extCancel i p => simp [Action.isJoinerAct] at hja
     | finCancel i p => simp [Action.isJoinerAct] at hja
     | nextDone k p => simp [Action.isJoinerAct] at hja
+    | cancelRem p => simp [Action.isJoinerAct] at hja
     | join p =>
       simp only []
       split
